@@ -148,3 +148,28 @@ V("C05", "test_init_zeroes_residual", "violation", (TDS, "        system.dae.f[s
 V("C05", "syngen_tm_init_off", "violation", (GENBASE, "                        v_str='tm0',\n                        e_str='tm0 - tm'", "                        v_str='tm0 * 1.01',\n                        e_str='tm0 - tm'"), rule="C05.equilibrium", tier="thorough")
 V("C05", "tgov1_pd_init", "violation", ("andes/models/governor/tgov1.py", "                        v_str='ue * tm0',\n                        e_str='ue*(- wd + pref + paux) * gain - pd')", "                        v_str='ue * tm0 * 0.9',\n                        e_str='ue*(- wd + pref + paux) * gain - pd')"), rule="C05.equilibrium", tier="thorough")
 V("C05", "benign_v_numeric_refactor", "silent", (GENBASE, "        mask_idx = [self.gen.v[i] for i in range(self.n) if self.u.v[i] == 1]\n        self.system.groups['StaticGen'].set(src='u', idx=mask_idx, attr='v', value=0)", "        online = [self.gen.v[i] for i in range(self.n) if self.u.v[i] == 1]\n        self.system.groups['StaticGen'].set(src='u', idx=online, attr='v', value=0)"))
+
+# ---------------- C10
+DAEF = "andes/variables/dae.py"
+VARF = "andes/core/var.py"
+V("C10", "contiguous_off_by_one", "violation", (DAEF, "out.append(np.arange(idx_begin + idx * ndevice, idx_begin + (idx + 1) * ndevice))", "out.append(np.arange(idx_begin + idx * ndevice, idx_begin + (idx + 1) * ndevice - 1))"), rule="C10.tiling")
+V("C10", "collate_wrong_step", "violation", (DAEF, "out.append(np.arange(idx_begin + idx, idx_end, nvar))", "out.append(np.arange(idx_begin + idx, idx_end, ndevice))"), rule="C10.tiling")
+V("C10", "counter_not_advanced", "violation", (DAEF, "        self.__dict__[counter_name] = idx_end\n", ""), rule="C10.tiling")
+V("C10", "rhs_counter_wrong_len", "violation", (SYSTEM, "                self.dae.q += item.n\n", "                self.dae.q += mdl.n\n"), rule="C10.alloc")
+V("C10", "extvar_ignores_indexer", "violation", (VARF, "                uid = ext_model.idx2uid(self.indexer.v)\n            else:\n                uid = np.arange(ext_model.n, dtype=int)\n\n            self._n", "                uid = np.arange(len(self.indexer.v), dtype=int)\n            else:\n                uid = np.arange(ext_model.n, dtype=int)\n\n            self._n"), rule="C10.link")
+V("C10", "names_use_uid_order", "violation", (SYSTEM, "        for idx_item, addr in zip(idx.v, item.a):\n            dests[0][addr] = f'{name} {_append_model_name(mdl_name, idx_item)}'", "        for idx_item, addr in zip(sorted(idx.v, key=str), item.a):\n            dests[0][addr] = f'{name} {_append_model_name(mdl_name, idx_item)}'"), rule="C10.names")
+V("C10", "group_get_uses_group_uid", "violation", ("andes/models/group.py", "                uid = models[i].idx2uid(idx)\n                instance = models[i].__dict__[src]\n                val = instance.__dict__[attr][uid]", "                uid = self.uid[idx]\n                instance = models[i].__dict__[src]\n                val = instance.__dict__[attr][uid]"), rule="C10.reader")
+V("C10", "benign_tiling_rewrite", "silent", (DAEF, "out.append(np.arange(idx_begin + idx * ndevice, idx_begin + (idx + 1) * ndevice))", "out.append(np.arange(idx_begin + ndevice * idx, idx_begin + ndevice * idx + ndevice))"))
+
+# ---------------- C11
+PARAMF = "andes/core/param.py"
+V("C11", "coeff_z_inverted", "violation", (SYSTEM, "                      'z': Zn / Zb,\n                      'y': Zb / Zn,", "                      'z': Zb / Zn,\n                      'y': Zb / Zn,"), rule="C11.coeff")
+V("C11", "coeff_current_no_voltage", "violation", (SYSTEM, "'current': (Sn / Vn) / (Sb / Vb),", "'current': Sn / Sb,"), rule="C11.coeff")
+V("C11", "zb_uses_device_voltage", "violation", (SYSTEM, "            Zb = Vb ** 2 / Sb\n", "            Zb = Vn ** 2 / Sb\n"), rule="C11.coeff")
+V("C11", "alter_vin_branch_multiplies", "violation", (MODEL, "self.set(src, idx, 'vin', value / instance.pu_coeff[uid])", "self.set(src, idx, 'vin', value * instance.pu_coeff[uid])"), rule="C11.invariant")
+V("C11", "alter_forgets_vin", "violation", (MODEL, "                self.set(src, idx, 'vin', value)\n                self.set(src, idx, 'v', value * instance.pu_coeff[uid])", "                self.set(src, idx, 'v', value * instance.pu_coeff[uid])"), rule="C11.invariant")
+V("C11", "set_pu_coeff_no_recompute", "violation", (PARAMF, "        self.v[:] = self.vin * self.pu_coeff\n\n    def restore", "\n    def restore"), rule="C11.invariant")
+V("C11", "teye_not_updated", "violation", (MODEL, "                        self.system.TDS.Teye[uid_int[ii], uid_int[ii]] = instance.v[ii]", "                        pass"), rule="C11.tconst")
+V("C11", "json_no_refresh", "violation", ("andes/io/json.py", "        instance.cache.refresh(\"df_in\")\n", ""), rule="C11.export")
+V("C11", "reset_no_restore", "violation", (SYSTEM, "        self._p_restore()\n        self.is_setup = False", "        self.is_setup = False"), rule="C11.reset")
+V("C11", "benign_coeff_rewrite", "silent", (SYSTEM, "'current': (Sn / Vn) / (Sb / Vb),", "'current': (Sn * Vb) / (Sb * Vn),"))
